@@ -89,13 +89,60 @@ def leaf_values():
     return P, F
 
 
+def prog_postprocess(env, case):
+    """_eval_points_and_function_values on an ARBITRARY symmetric 2x2 solver output (entries are inputs of the harness,
+    so that also the zero tests on its eigenvalues are explored: rank-deficient and non-PSD outputs): the Gram matrix of
+    the evaluated leaf points is the PSD projection V diag(max(w, 0)) V^T of that output, whatever the declaration order"""
+    from PEPit import PEP, Point, Expression
+    from vf import npshim
+    tag = "C02:postprocess"
+    pep = PEP()
+    p0, p1 = Point(), Point()
+    e0 = Expression()
+    a, b, c = env.real("G00"), env.real("G01"), env.real("G11")
+    f0 = env.real("F0")
+    if env.sym:
+        del npshim.LAST_EIGH[:]
+        G = np.empty((2, 2), dtype=object)
+        G[0, 0], G[0, 1], G[1, 0], G[1, 1] = a, b, b, c
+        Fv = np.empty(1, dtype=object)
+        Fv[0] = f0
+    else:
+        G = np.array([[a, b], [b, c]], dtype=float)
+        Fv = np.array([f0], dtype=float)
+    pep._eval_points_and_function_values(Fv, G, verbose=0)
+    P = {p: list(p._value) for p in (p0, p1)}
+    env.check_eq(e0._value, f0, "leaf expression does not carry the solver's value", signature=tag + ":F")
+    if env.sym:
+        from vf.engine import SymReal
+        w_, V_, _ = npshim.LAST_EIGH[0]
+        wpos = [SymReal(z3.If(w_[k].t >= 0, w_[k].t, z3.RealVal(0))) for k in range(2)]
+        proj = [[sum(V_[i, k] * wpos[k] * V_[j, k] for k in range(2)) for j in range(2)] for i in range(2)]
+    else:
+        w, V = np.linalg.eigh(G)
+        proj = (V * np.maximum(w, 0)) @ V.T
+        env.tol = 1e-9 * (1 + float(np.abs(G).max()))
+    for i, pi in enumerate((p0, p1)):
+        for j, pj in enumerate((p0, p1)):
+            if j < i:
+                continue
+            env.check_eq(dot(P[pi], P[pj]), proj[i][j], "inner product of the evaluated leaf points (%d,%d) is not the entry of "
+                         "the PSD projection of the solver's Gram matrix" % (i, j), signature=tag + ":gram-projection",
+                         pools=('linalg',), timeout_ms=120000)
+    return "postprocess"
+
+
 def prog(env, case):
+    if case.get('kind') == 'postprocess':
+        return prog_postprocess(env, case)
     from PEPit import Point, Expression
     spec = case['spec']
     backend = spec.get('backend', 'cvxpy')
     name = case['id'].rsplit('-', 1)[0]
     tag = "C02:%s:%s" % (backend, name)
     if env.sym:
+        from vf import npshim as _shim
+        del _shim.LAST_EIGH[:]
         stub = (MosekStub(env) if backend == 'mosek' else CvxStub(env))
         if backend == 'mosek':
             CvxStub(env).install()
@@ -142,8 +189,28 @@ def prog(env, case):
                                      "inner product of evaluated leaf points (%d,%d) differs from the solver's Gram entry"
                                      % (i, j), signature=tag + ":gram", pools=('linalg',), timeout_ms=120000)
             else:
-                # clipping branch: Gram(values) = V diag(max(w,0)) V^T ; checked through its defining property:
-                # it is PSD-factorised (trivially) and coincides with G when G is PSD (w >= 0)
+                # clipping branch: Gram(values) = V diag(max(w,0)) V^T (the projection of G on the PSD cone), with (w, V)
+                # the eigen-decomposition the code itself computed (also when clipped eigenvalues make it rank deficient)
+                from vf import npshim
+                from vf.engine import SymReal
+                from vf.engine import lift as _lift
+
+                def _is_G(Mx):
+                    Mx = np.asarray(Mx)
+                    return Mx.shape == (n, n) and all(_lift(Mx[i, j]) is not None and _lift(G[i, j]) is not None
+                                                      and _lift(Mx[i, j]).eq(_lift(G[i, j]))
+                                                      for i in range(n) for j in range(n))
+                eig = [t for t in npshim.LAST_EIGH if _is_G(t[2])][:1]      # the decomposition of the Gram matrix itself
+                if eig:
+                    w_, V_, _ = eig[-1]
+                    wpos = [SymReal(z3.If(w_[k].t >= 0, w_[k].t, z3.RealVal(0))) for k in range(n)]
+                    for i in range(n):
+                        for j in range(i, n):
+                            proj = sum(V_[i, k] * wpos[k] * V_[j, k] for k in range(n))
+                            env.check_eq(dot(P[Point.list_of_leaf_points[i]], P[Point.list_of_leaf_points[j]]), proj,
+                                         "clipping branch: inner product of evaluated leaf points (%d,%d) is not the entry of "
+                                         "the PSD projection V diag(max(w,0)) V^T of the solver's Gram matrix" % (i, j),
+                                         signature=tag + ":gram-projection", pools=('linalg',), timeout_ms=120000)
                 for i in range(n):
                     for j in range(i, n):
                         env.check(env.implies(psd_hypothesis(G),
@@ -311,6 +378,8 @@ def cases(tier):
             cs.append(dict(id="%s-%s" % (name, be), spec=s2, input_zero_tests='generic',
                            output_branches='both' if kw.get('check_gram') else 'first'))
 
+    cs.append(dict(id="postprocess-2x2", kind='postprocess', spec={}, fork_outputs=True, output_branches='both',
+                   input_zero_tests='fork'))
     add("tiny", tiny=True, check_gram=True, metrics=1, check_weak_duality=True)
     add("tiny-2metrics", tiny=True, check_gram=False, metrics=2)
     add("gd", metrics=2)
